@@ -98,7 +98,10 @@ class R:
         if k == 'ForStmt':
             body = [x for x in n['inner'] if isinstance(x, dict) and x.get('kind')][-1]
             return 'for ' + self.s(body)
-        if k in ('WhileStmt', 'CXXForRangeStmt', 'DoStmt'):
+        if k == 'DoStmt':
+            parts = [x for x in n['inner'] if isinstance(x, dict) and x.get('kind')]
+            return 'do %s while (%s)' % (self.s(parts[0]), self.e(parts[1]))
+        if k in ('WhileStmt', 'CXXForRangeStmt'):
             return 'loop'
         if k == 'ReturnStmt':
             return ('return ' + self.e(n['inner'][0])) if n.get('inner') else 'return'
@@ -165,7 +168,7 @@ def _methods(spec, name):
         if m.get('kind') == 'FunctionTemplateDecl' and m.get('name') == name:      # instantiations of a member template
             for x in m.get('inner', []):
                 if x.get('kind') == 'CXXMethodDecl' and any(y.get('kind') == 'CompoundStmt' for y in x.get('inner', [])) \
-                        and 'C11Filter' in x.get('type', {}).get('qualType', ''):
+                        and ('C11Filter' in x.get('type', {}).get('qualType', '') or name == 'pvRemove'):
                     out.append(x)
     return out
 
@@ -193,6 +196,18 @@ def facts(tu, repo, root='/verif'):
     if len(rf) != 1:
         raise E('astfacts: expected exactly one instantiation of Remove(const ItemFilter&) for C11Filter, found %d' % len(rf))
     F['remove_filter_stmts'] = [x for x in (r.top(y) for y in body(rf[0]).get('inner', [])) if x is not None]
+    pr = _methods(spec, 'pvRemove')
+    if not pr:
+        raise E('astfacts: no instantiation of HashSet::pvRemove found')
+    prs = [[x for x in (r.top(y) for y in body(m).get('inner', [])) if x is not None] for m in pr]
+    if any(x != prs[0] for x in prs):
+        raise E('astfacts: the instantiations of pvRemove differ')
+    F['pv_remove_stmts'] = prs[0]
+    ri = [m for m in _methods(spec, 'Remove') if [p_.get('type', {}).get('qualType', '') for p_ in m.get('inner', []) if p_.get('kind') == 'ParmVarDecl'] == ['momo::HashSet::ConstIterator']
+          or [p_.get('name') for p_ in m.get('inner', []) if p_.get('kind') == 'ParmVarDecl'] == ['iter']]
+    if len(ri) != 1:
+        raise E('astfacts: expected exactly one HashSet::Remove(ConstIterator iter), found %d' % len(ri))
+    F['remove_iter_stmts'] = [x for x in (r.top(y) for y in body(ri[0]).get('inner', [])) if x is not None]
     its = cx.find_spec(objs, {'class': 'HashSetConstIterator'})
     if isinstance(its, list):
         its = its[0]
